@@ -46,7 +46,7 @@ KNOWN_EXPLAINS_DISAGREEMENT = False
 def gen_leaf(rng, S, exact):
     n = S.size
     kinds = ['l1', 'l2sq', 'l2sq', 'const', 'zero', 'indzero', 'indlinf', 'lin', 'quadscale',
-             'quadmul']
+             'quadscale']
     if not S.is_pspace:
         kinds += ['huber', 'huber']
     if S.kind in ('rn', 'rn-const'):
@@ -121,8 +121,8 @@ def class_zoo(rng, S):
     out = [['l1'], ['l2'], ['linf'], ['lp', 1.5], ['lp', 3.0], ['l2sq'], ['const', 2.0], ['zero'],
            ['indzero', 1.0], ['indlinf'], ['indl2'], ['indl1'], ['indlp', 3.0],
            ['lin', fc.rvec(rng, n), 0.5],
-           ['quadscale', 2.0, fc.rvec(rng, n), 1.0], ['quadmul', pos, None, -1.0],
-           ['quadmul', pos, fc.rvec(rng, n), 0.0],
+           ['quadscale', 2.0, fc.rvec(rng, n), 1.0], ['quadscale', 0.5, None, -1.0],
+           ['quadmul', pos, None, -1.0],          # MultiplyOperator has no inverse: must raise
            ['infconv', ['l1'], ['l2sq']], ['infconv', ['l2sq'], ['const', 1.0]],
            ['conj', ['infconv', ['indlinf'], ['l2sq']]]]
     if not S.is_pspace:
@@ -156,7 +156,10 @@ def corner_recipes(rng, S):
         ['rscal', 2.0, ['indzero', 1.0]],
         ['lscal', 2.0, ['ssum', 1.0, ['trans', t, ['indzero', 0.0]]]],
         ['rscal', -0.5, ['quadscale', 2.0, b, 1.0]],
-        ['trans', t, ['lscal', 0.5, ['quadmul', [rng.choice([1.0, 2.0, 0.5]) for _ in range(n)], b, -1.0]]],
+        ['trans', t, ['lscal', 0.5, ['quadscale', 4.0, b, -1.0]]],
+        ['lscal', -1.0, ['l2sq']],                         # non-positive left scalar: ValueError
+        ['rscal', 2.0, ['lscal', -0.5, ['trans', t, ['l1']]]],
+        ['ssum', 1.0, ['lscal', -2.0, ['huber', 0.5]]] if not S.is_pspace else ['lscal', -2.0, ['l1']],
         ['qp', 0.0, t, 2.0, ['quadscale', 0.5, b, 0.0]],
         ['breg', t, b, ['quadscale', 2.0, None, 0.0]],
     ]
@@ -198,6 +201,25 @@ def point(rng, S, dom=None, den=4, small=False):
     return fc.rvec(rng, n, -8, 8, den)
 
 
+def expected_conj_raise(r):
+    """The only documented reasons for `convex_conj` to raise inside the generated language:
+    a non-positive left scalar (ValueError, `FunctionalLeftScalarMult.convex_conj`) and
+    QuadraticForm over MultiplyOperator, which has no `inverse` (OpNotImplementedError)."""
+    def walk(t):
+        if not isinstance(t, (list, tuple)) or not t or not isinstance(t[0], str):
+            return None
+        if t[0] == 'lscal' and float(t[1]) <= 0:
+            return 'ValueError'
+        if t[0] == 'quadmul':
+            return 'OpNotImplementedError'
+        for u in t[1:]:
+            v = walk(u)
+            if v:
+                return v
+        return None
+    return walk(r)
+
+
 def tag(r):
     """Words identifying special input classes (matched by known_findings.json)."""
     return ' [QuadraticForm-with-operator]' if has_quadform_with_operator(r) else ''
@@ -212,17 +234,6 @@ def check_expr(ctx, r, S, stream, lines, pend, n_pts=3, oracle_only=False):
     if st != 'ok':
         ctx.violation('construct ' + key0, 'constructing the functional raised ' + st, desc0)
         return
-    st, g = safe_call(lambda: f.convex_conj)
-    if st != 'ok':
-        if 'ValueError' in st or 'NotImplementedError' in st:
-            ctx.hit('noconj/' + r[0])
-            return
-        ctx.violation('convex_conj-raises ' + key0, 'f.convex_conj raised ' + st, desc0)
-        return
-    st, gg = safe_call(lambda: g.convex_conj)
-    if st != 'ok':
-        gg = None
-    evaluable = r[0] != 'infconv'
     w = None
     if not oracle_only:
         try:
@@ -232,6 +243,43 @@ def check_expr(ctx, r, S, stream, lines, pend, n_pts=3, oracle_only=False):
         except Exception as e:  # noqa
             ctx.violation('serialise ' + key0, 'reading the functional object raised {}: {}'.format(
                 type(e).__name__, e), desc0)
+    zeros = fl([0.0] * S.size)
+    st, g = safe_call(lambda: f.convex_conj)
+    if st != 'ok':
+        # never skipped silently: the model must say `noconj`, and a raise outside the two
+        # documented cases is a violation
+        ctx.hit('conj-raises/' + r[0])
+        exp = expected_conj_raise(r)
+        if w is not None:
+            # modelled expression: the raise is legitimate iff the model (which follows the
+            # documented ValueError of FunctionalLeftScalarMult for scalars <= 0, also when
+            # `f * s` was dispatched to `s * f` for a functional flagged linear) says `noconj`
+            lines.append('conjskel f={} w={} x={}'.format(w, fc.wl(S), zeros))
+            pend.append(('conjraise', dict(desc0, key='convex_conj-raises ' + key0), st, stream))
+        elif exp is None or exp not in st:
+            ctx.violation('convex_conj-raises ' + key0, 'f.convex_conj raised ' + st, desc0)
+        ctx.case(('conj-raises', S.kind, classes))
+        return
+    if w is not None:
+        try:
+            wg = fc.wire(g, S)
+        except NoModel:
+            wg = None
+        except Exception as e:  # noqa
+            wg = None
+            ctx.violation('serialise-conj ' + key0, 'reading f.convex_conj raised {}: {}'.format(
+                type(e).__name__, e), desc0)
+        lines.append('conjskel f={} w={} x={}'.format(w, fc.wl(S), zeros))
+        pend.append(('conjskel', dict(desc0), None if wg is None else fc.skeleton(wg), stream))
+    st, gg = safe_call(lambda: g.convex_conj)
+    if st != 'ok':
+        gg = None
+        if w is not None:
+            lines.append('biconjval f={} w={} x={}'.format(w, fc.wl(S), zeros))
+            pend.append(('conjraise', dict(desc0, key='biconj-raises ' + key0), st, stream))
+        else:
+            ctx.violation('biconj-raises ' + key0, 'f.convex_conj.convex_conj raised ' + st, desc0)
+    evaluable = r[0] != 'infconv'
     dom = leaf_domain(r)
     cdom = {'pos': 'lt1', 'lt1': 'pos'}.get(dom)
     for i in range(n_pts):
@@ -355,6 +403,21 @@ def compare(ctx, pend, outs):
     for (op, desc, impl, stream), ans in zip(pend, outs):
         d2 = dict(desc, op=op)
         ctx.hit('model/' + op)
+        if op == 'conjraise':
+            if ans != 'noconj' or 'ValueError' not in str(impl):
+                ctx.disagree(d2, 'raised: ' + str(impl), ans)
+                ctx.violation(desc.get('key', 'convex_conj-raises'),
+                              'convex_conj raised {} where the documented rules give a conjugate '
+                              '(model: {})'.format(impl, ans),
+                              {k: v for k, v in desc.items() if k != 'key'})
+            continue
+        if op == 'conjskel':
+            if impl is None:
+                if not ans.startswith('ok s='):
+                    ctx.disagree(d2, 'conjugate exists (class outside the model)', ans)
+            elif ans != 'ok s=' + impl:
+                ctx.disagree(d2, impl, ans)
+            continue
         if not ans.startswith('ok v='):
             ctx.disagree(d2, impl, ans)
             continue
